@@ -5,6 +5,7 @@ package harness
 import (
 	"bytes"
 	"fmt"
+	"strings"
 	"testing"
 
 	"github.com/go-gts/gts"
@@ -350,6 +351,23 @@ func TestC18(t *testing.T) {
 		}
 	}
 	em.done(true)
+	// long queries: runs of one letter of 999..5000 copies (a spacer of N, a homopolymer) between two anchors, matched
+	// against a sequence that holds the pattern once and a near miss once
+	eq := enumPart(t, c18Prop, st, "long-queries")
+	for _, run := range []int{999, 1000, 1001, 1500, 5000} {
+		for _, letter := range []string{"n", "a", "r", "-"} {
+			fill := strings.Repeat("a", run)
+			q := "gc" + strings.Repeat(letter, run) + "tg"
+			seq := "ttgc" + fill + "tgcc" + "gc" + fill[:run-1] + "ctg"
+			if letter == "-" {
+				seq = "ttgc" + strings.Repeat("-", run) + "tgcc"
+			}
+			if !eq.try(c18Case{Mode: "match", Seq: seq, Query: q}) || !eq.try(c18Case{Mode: "search", Seq: seq, Query: "gc" + fill[:run] + "tg"}) {
+				return
+			}
+		}
+	}
+	eq.done(true)
 	// every query letter x sequence letter of the IUPAC alphabet, both cases (query 'n' only against letters)
 	e2 := enumPart(t, c18Prop, st, "all-letter-pairs")
 	letters := []byte(iupacLower + "ACGTURYKMSWBDHVN")
